@@ -189,6 +189,29 @@ def slice_value(ip, st, cont, lo, hi):
     raise X.Unanalysable('slice of %r' % (cont,))
 
 
+@S('std::ops::Range::<Idx>::contains', 'std::ops::RangeInclusive::<Idx>::contains', 'std::ops::RangeFrom::<Idx>::contains', 'std::ops::RangeTo::<Idx>::contains',
+   'std::ops::RangeToInclusive::<Idx>::contains')
+def s_range_contains(ip, st, fr, name, args, c, site):
+    r = deref_all(ip, st, args[0])
+    x = deref_all(ip, st, args[1])
+    if not isinstance(r, X.Adt) or not isinstance(x, tuple):
+        raise X.Unanalysable('contains on %r' % (r,), site)
+    kind = r.path.split('::')[-1]
+    xs = r.xs
+    if kind == 'Range':
+        return one(T.mk_and(T.mk_cmp('le', xs[0], x), T.mk_cmp('lt', x, xs[1])))
+    if kind == 'RangeInclusive':
+        # (start, end, exhausted flag)
+        return one(T.mk_and(T.mk_cmp('le', xs[0], x), T.mk_cmp('le', x, xs[1])))
+    if kind == 'RangeFrom':
+        return one(T.mk_cmp('le', xs[0], x))
+    if kind == 'RangeTo':
+        return one(T.mk_cmp('lt', x, xs[0]))
+    if kind == 'RangeToInclusive':
+        return one(T.mk_cmp('le', x, xs[0]))
+    raise X.Unanalysable('contains on %s' % kind, site)
+
+
 @S('core::slice::cmp::<impl std::cmp::PartialEq<[U]> for [T]>::eq', 'core::slice::cmp::<impl std::cmp::PartialEq<[U]> for [T]>::ne')
 def s_slice_eq(ip, st, fr, name, args, c, site):
     """a == b on slices: different lengths are unequal, two empty slices are equal, otherwise the element-wise
